@@ -25,7 +25,7 @@ from harness import audit as A  # noqa: E402
 from harness import core as C  # noqa: E402
 
 PROPS = ["C%02d" % i for i in range(1, 21)]
-CHECKER_CMD = "cd lean/MabModel && lake build MabModel driver && lake env lean MabModel/Audit.lean  (thorough: + lake env leanchecker MabModel.Props.<id>)"
+CHECKER_CMD = "cd lean/MabModel && lake build MabModel driver && (print axioms of every property theorem) | lake env lean --stdin  (thorough: + lake env leanchecker MabModel.Props.<id>)"
 
 
 def prop_module(pid):
